@@ -467,9 +467,9 @@ fn enumerate<const N: usize>(o: &Opts, rep: &mut Report, cap_idx: usize) {
                         replay: ReplayCase { n: cap_idx, ctor: "new".into(), recipe: format!("{},{}", prefix.0, prefix.1), filling: "none".into(), act: seq.iter().map(|a| a.show()).collect::<Vec<_>>().join(";"), fault: "none".into(), extra: String::new() },
                     });
                 }
-                if x == count / 3 && pi == 1 {
+                if x == (count / 7) * (pi as u64 + 1) + 5 {
                     let s = format!("capacity {} front-positioning prefix {:?} then [{}]: every step's return shape, len, is_full, live-element count and all cost-independent observers match the model", cap_name(N), prefix, seq.iter().map(|a| a.show()).collect::<Vec<_>>().join("; "));
-                    rep.sample(&format!("seq-{}", d), move || s);
+                    rep.sample(&format!("seq-{}-{}", d, pi), move || s);
                 }
             }
         }
